@@ -53,9 +53,9 @@ fn case(input: &str, ctor: Ctor) -> R {
     let r: ReprCString = match ctor {
         Ctor::Str => ReprCString::from(input),
         Ctor::String => {
-            let s = alloc::untracked(|| input.to_string());
-            let r = ReprCString::from(s);
-            r
+            // built inside the tracking window: the conversion may copy it or take its buffer over
+            let s = input.to_string();
+            ReprCString::from(s)
         }
         Ctor::Bytes => ReprCString::from(input.as_bytes()),
         Ctor::StringSpare1 | Ctor::StringSpare7 | Ctor::StringSpare64 => {
